@@ -23,33 +23,34 @@ func richProgram() *idl.Program {
 	T, List, Map := idl.T, idl.List, idl.Map
 	fld := func(id int, n, req string, t *idl.Type) *idl.Field { return &idl.Field{ID: id, Name: n, Req: req, Type: t} }
 	ann := []idl.Annot{{"a1", "v1"}, {"a2", "v2"}, {"deprecated", "soon"}}
+	ann4 := []idl.Annot{{"zeta", "z"}, {"alpha", "a"}, {"mid", "m"}, {"beta", "b"}}
 	inc := func(name string) *idl.File {
 		one := 1
 		return &idl.File{Name: name + ".frugal", Decls: []*idl.Decl{
 			{NS: &idl.NS{Scope: "go", Value: name}}, {NS: &idl.NS{Scope: "java", Value: "com." + name}}, {NS: &idl.NS{Scope: "py", Value: name + "_py"}}, {NS: &idl.NS{Scope: "dart", Value: name + "_dart"}},
-			{Typedef: &idl.Typedef{Name: "Id" + name, Type: T("i64")}},
-			{Enum: &idl.Enum{Name: "Kind" + name, Values: []*idl.EnumValue{{Name: "A", Explicit: &one}, {Name: "B"}, {Name: "C"}}}},
+			{Typedef: &idl.Typedef{Name: "Id" + name, Type: T("i64"), Annots: ann}},
+			{Enum: &idl.Enum{Name: "Kind" + name, Annots: ann, Values: []*idl.EnumValue{{Name: "A", Explicit: &one, Annots: ann}, {Name: "B"}, {Name: "C"}}}},
 			{Struct: &idl.Struct{Kind: "struct", Name: "Thing" + name, Annots: ann, Fields: []*idl.Field{fld(1, "n", "default", T("i32")), fld(2, "s", "optional", T("string"))}}},
 			{Struct: &idl.Struct{Kind: "exception", Name: "Err" + name, Fields: []*idl.Field{fld(1, "m", "default", T("string"))}}},
-			{Service: &idl.Service{Name: "Base" + name, Methods: []*idl.Method{{Name: "ping" + name}, {Name: "get" + name, Ret: T("Thing" + name)}}}},
+			{Service: &idl.Service{Name: "Base" + name, Annots: ann, Methods: []*idl.Method{{Name: "ping" + name, Annots: ann}, {Name: "get" + name, Ret: T("Thing" + name)}}}},
 		}}
 	}
 	main := &idl.File{Name: "main.frugal", Decls: []*idl.Decl{
 		{NS: &idl.NS{Scope: "go", Value: "mainpkg"}}, {NS: &idl.NS{Scope: "java", Value: "com.mainpkg"}}, {NS: &idl.NS{Scope: "py", Value: "main_py"}}, {NS: &idl.NS{Scope: "dart", Value: "main_dart"}}, {NS: &idl.NS{Scope: "*", Value: "anyns"}},
 		{Include: "zeta.frugal"}, {Include: "alpha.frugal"}, {Include: "mid.frugal"},
-		{Const: &idl.Const{Name: "K1", Type: T("i32"), Value: idl.Int(1)}}, {Const: &idl.Const{Name: "K2", Type: Map(T("string"), T("i32")), Value: idl.LMap([]*idl.Lit{idl.Str("z"), idl.Str("a"), idl.Str("m")}, []*idl.Lit{idl.Int(1), idl.Int(2), idl.Int(3)})}},
+		{Const: &idl.Const{Name: "K1", Type: T("i32"), Value: idl.Int(1), Annots: ann}}, {Const: &idl.Const{Name: "K2", Type: Map(T("string"), T("i32")), Value: idl.LMap([]*idl.Lit{idl.Str("z"), idl.Str("a"), idl.Str("m")}, []*idl.Lit{idl.Int(1), idl.Int(2), idl.Int(3)})}},
 		{Const: &idl.Const{Name: "K3", Type: List(T("string")), Value: idl.LList(idl.Str("x"), idl.Str("y"))}},
-		{Typedef: &idl.Typedef{Name: "TA", Type: T("i32")}}, {Typedef: &idl.Typedef{Name: "TB", Type: List(T("TA"))}}, {Typedef: &idl.Typedef{Name: "TC", Type: Map(T("string"), T("alpha.Thingalpha"))}},
-		{Enum: &idl.Enum{Name: "Color", Values: []*idl.EnumValue{{Name: "RED"}, {Name: "GREEN"}, {Name: "BLUE"}}}},
+		{Typedef: &idl.Typedef{Name: "TA", Type: T("i32"), Annots: ann}}, {Typedef: &idl.Typedef{Name: "TB", Type: List(T("TA"))}}, {Typedef: &idl.Typedef{Name: "TC", Type: Map(T("string"), T("alpha.Thingalpha"))}},
+		{Enum: &idl.Enum{Name: "Color", Annots: ann, Values: []*idl.EnumValue{{Name: "RED", Annots: ann}, {Name: "GREEN"}, {Name: "BLUE", Annots: ann}}}},
 		{Struct: &idl.Struct{Kind: "struct", Name: "Big", Annots: ann, Fields: []*idl.Field{
 			fld(1, "a", "required", T("i32")), fld(2, "b", "default", T("zeta.Thingzeta")), fld(3, "c", "optional", T("TC")), fld(4, "d", "default", Map(T("Color"), List(T("mid.Idmid")))),
 			{ID: 5, Name: "e", Req: "default", Type: Map(T("string"), T("i32")), Default: idl.LMap([]*idl.Lit{idl.Str("q"), idl.Str("b"), idl.Str("k")}, []*idl.Lit{idl.Int(1), idl.Int(2), idl.Int(3)}), Annots: ann}}}},
 		{Struct: &idl.Struct{Kind: "union", Name: "Pick", Fields: []*idl.Field{fld(1, "x", "default", T("i64")), fld(2, "y", "default", T("string")), fld(3, "z", "default", T("Big"))}}},
 		{Struct: &idl.Struct{Kind: "exception", Name: "Oops", Fields: []*idl.Field{fld(1, "why", "default", T("string"))}}},
-		{Service: &idl.Service{Name: "Zsvc", Extends: "alpha.Basealpha", Methods: []*idl.Method{{Name: "one", Ret: T("Big"), Args: []*idl.Field{fld(1, "p", "default", T("Pick"))}, Throws: []*idl.Field{fld(1, "o", "default", T("Oops")), fld(2, "e", "default", T("mid.Errmid"))}}, {Name: "two", Oneway: true}}}},
-		{Service: &idl.Service{Name: "Asvc", Methods: []*idl.Method{{Name: "three", Args: []*idl.Field{fld(1, "k", "default", T("zeta.Kindzeta"))}}}}},
+		{Service: &idl.Service{Name: "Zsvc", Extends: "alpha.Basealpha", Annots: ann, Methods: []*idl.Method{{Name: "one", Ret: T("Big"), Args: []*idl.Field{fld(1, "p", "default", T("Pick"))}, Throws: []*idl.Field{fld(1, "o", "default", T("Oops")), fld(2, "e", "default", T("mid.Errmid"))}, Annots: ann}, {Name: "two", Oneway: true, Annots: ann4}}}},
+		{Service: &idl.Service{Name: "Asvc", Methods: []*idl.Method{{Name: "three", Args: []*idl.Field{fld(1, "k", "default", T("zeta.Kindzeta"))}, Annots: ann4}}}},
 		{Service: &idl.Service{Name: "Msvc", Extends: "Asvc", Methods: []*idl.Method{{Name: "four", Ret: T("TB")}}}},
-		{Scope: &idl.Scope{Name: "Zevents", Prefix: "z.{user}.{org}", Ops: []*idl.Op{{Name: "Made", Type: T("Big")}, {Name: "Gone", Type: T("alpha.Thingalpha")}, {Name: "Left", Type: T("zeta.Thingzeta")}, {Name: "Back", Type: T("mid.Thingmid")}}}},
+		{Scope: &idl.Scope{Name: "Zevents", Prefix: "z.{user}.{org}", Annots: ann, Ops: []*idl.Op{{Name: "Made", Type: T("Big"), Annots: ann4}, {Name: "Gone", Type: T("alpha.Thingalpha")}, {Name: "Left", Type: T("zeta.Thingzeta")}, {Name: "Back", Type: T("mid.Thingmid")}}}},
 		{Scope: &idl.Scope{Name: "Aevents", Ops: []*idl.Op{{Name: "Seen", Type: T("Pick")}}}},
 		{Scope: &idl.Scope{Name: "Mevents", Prefix: "m", Ops: []*idl.Op{{Name: "Heard", Type: T("zeta.Thingzeta")}}}},
 	}}
